@@ -253,7 +253,7 @@ fn random_crash(rng: &mut rvcore::Rng) -> Crash {
 
 //------------ Running -------------------------------------------------------
 
-const FS_SYSCALLS: &str = "openat,write,pwrite64,ftruncate,rename,renameat,renameat2,unlink,unlinkat,mkdir,mkdirat";
+const FS_SYSCALLS: &str = "write,pwrite64,ftruncate,rename,renameat,renameat2,unlink,unlinkat";
 
 fn copy_dir(from: &Path, to: &Path) {
     std::fs::create_dir_all(to).expect("mkdir");
@@ -265,27 +265,19 @@ fn copy_dir(from: &Path, to: &Path) {
     }
 }
 
-/// The observed local copy with torn objects mapped to fresh content
-/// numbers; the flag tells whether every object is intact.
-fn observe_torn(config: &routinator::config::Config) -> Result<(Option<LocalObs>, bool), String> {
-    let mut obs = match observe(config)? {
-        Some(obs) => obs,
-        None => return Ok((None, true)),
+/// The observed local copy with torn objects (stored hash != hash of the
+/// content, or unknown content) mapped to fresh content numbers; the flag
+/// tells whether every object is intact. Also returns the copy as it is.
+fn observe_torn(config: &routinator::config::Config) -> Result<(Option<LocalObs>, bool, Option<LocalObs>), String> {
+    let (obs, torn) = match observe_full(config)? {
+        Some(x) => x,
+        None => return Ok((None, true, None)),
     };
-    let raw = observe_raw(config)?.unwrap_or_default();
-    let mut intact = true;
-    let mut k = 0;
-    for (name, hash, data) in raw {
-        if name == b"state" { continue }
-        let name = String::from_utf8_lossy(&name).into_owned();
-        let ok = sha256(&data) == hash && bytes_content(&data).is_some();
-        if !ok {
-            intact = false;
-            k += 1;
-            obs.objs.insert(name, content_bytes(900_000 + k));
-        }
+    let mut mapped = obs.clone();
+    for (k, name) in torn.iter().enumerate() {
+        mapped.objs.insert(name.clone(), content_bytes(900_001 + k as u64));
     }
-    Ok((Some(obs), intact))
+    Ok((Some(mapped), torn.is_empty(), Some(obs)))
 }
 
 struct World<'a> {
@@ -332,12 +324,12 @@ fn build_template(w: &mut World, root: &Path) -> Option<i64> {
 /// The oracle for one follow-up update.
 #[allow(clippy::too_many_arguments)]
 fn check_followup(
-    w: &mut World, config: &routinator::config::Config, what: &str, step: &Step,
+    w: &mut World, post: &Result<Option<LocalObs>, String>, what: &str, step: &Step,
     outcome: Outcome, seen: &str, log: &[httpsrv::Request], violated: &mut bool,
 ) {
     if outcome != Outcome::Updated { return }
     let input = w.input.clone();
-    let post = match observe(config) {
+    let post = match post.clone() {
         Ok(Some(post)) => post,
         Ok(None) => {
             *violated = true;
@@ -412,10 +404,11 @@ fn run_kill(w: &mut World, template: &Path, t_now: i64, kill: &Kill, trace: &Tra
 
     // --- what the kill left ---
     let mut sig = match kill { Kill::Hook(_) => "hook".to_string(), Kill::Sys(n, _) => n.clone() };
-    match observe_torn(&config) {
-        Ok((obs, intact)) => {
-            if !intact { w.ctx.count("left:torn-object"); sig.push_str("/torn"); }
-            let class = match &obs {
+    let left = observe_torn(&config);
+    match &left {
+        Ok((obs, intact, _)) => {
+            if !*intact { w.ctx.count("left:torn-object"); sig.push_str("/torn"); }
+            let class = match obs {
                 None => "left:no-archive",
                 Some(o) if Some((o.session, o.serial)) == trace.pre.as_ref().map(|p| (p.session, p.serial))
                     && trace.pre.as_ref().map(|p| &p.objs) == Some(&o.objs) => "left:old",
@@ -431,7 +424,7 @@ fn run_kill(w: &mut World, template: &Path, t_now: i64, kill: &Kill, trace: &Tra
                 if touched.is_empty() { "-".to_string() } else { touched },
                 if trace.via_snapshot { 1 } else { 0 },
                 show_local(&trace.pre, &mut w.ids), show_local(&trace.done, &mut w.ids),
-                show_local(&obs, &mut w.ids),
+                show_local(obs, &mut w.ids),
             );
             w.ctx.case(&input, &op, "ok");
         }
@@ -449,13 +442,17 @@ fn run_kill(w: &mut World, template: &Path, t_now: i64, kill: &Kill, trace: &Tra
     let mut now = now;
     let sc = w.crash.as_scenario();
     let mut last = None;
+    let mut carried: Option<Result<(Option<LocalObs>, bool, Option<LocalObs>), String>> = Some(left);
     for (k, idx) in w.crash.follow.iter().enumerate() {
         now += 60;
         let step = w.crash.step(*idx);
         let mut attempts = 0;
         loop {
             attempts += 1;
-            let pre = observe_torn(&config);
+            let pre = match carried.take() {
+                Some(pre) => pre,
+                None => observe_torn(&config),
+            };
             let (res, served, log) = child_update(&mut child, w.srv, 100 + k, &step, now);
             let Some((outcome, seen)) = res else {
                 violated = true;
@@ -465,19 +462,26 @@ fn run_kill(w: &mut World, template: &Path, t_now: i64, kill: &Kill, trace: &Tra
             };
             w.ctx.count(&format!("followup:{}", outcome.as_str()));
             last = Some(outcome);
-            check_followup(w, &config, &format!("follow-up {k} (attempt {attempts})"), &step, outcome, &seen, &log, &mut violated);
+            let after = observe_torn(&config);
+            let post: Result<Option<LocalObs>, String> = match &after {
+                Ok((_, _, raw)) => Ok(raw.clone()),
+                Err(err) => Err(err.clone()),
+            };
+            check_followup(w, &post, &format!("follow-up {k} (attempt {attempts})"), &step, outcome, &seen, &log, &mut violated);
             // Model comparison of this step when the pre-state is expressible.
-            if let (Ok((pre, true)), Ok(post)) = (pre, observe(&config)) {
-                let draw = match &post { Some(p) if p.updated == now => p.best_before - now, _ => 0 };
+            if let (Ok((pre, true, _)), Ok(post)) = (&pre, &post) {
+                let draw = match post { Some(p) if p.updated == now => p.best_before - now, _ => 0 };
                 let (nresp, files) = show_view(&step, &served, &mut w.ids);
                 let op = format!("c25 {} {} {} {}|{}|{}|{}", sc.max_delta_count, sc.max_delta_list_len,
-                    now, draw, show_local(&pre, &mut w.ids), nresp, files);
-                let imp = format!("{}|{}|{}", outcome.as_str(), show_local(&post, &mut w.ids), show_trace(&log, &served));
+                    now, draw, show_local(pre, &mut w.ids), nresp, files);
+                let imp = format!("{}|{}|{}", outcome.as_str(), show_local(post, &mut w.ids), show_trace(&log, &served));
                 w.ctx.case(&input, &op, &imp);
             }
+            carried = Some(after);
             if outcome == Outcome::RunRetry && attempts < 2 {
                 // What the operation loop does after a retryable failure.
                 let _ = child.request("sanitize");
+                carried = None;
                 continue
             }
             break
@@ -512,13 +516,11 @@ fn trace_run(w: &mut World, template: &Path, t_now: i64) -> Option<TraceInfo> {
     let events = dir.path().join("events.log");
     let strace_out = dir.path().join("strace.out");
     let step = w.crash.step(w.crash.target);
-    let strace = vec![
-        "-f".to_string(), "-y".into(), "-o".into(), strace_out.display().to_string(),
-        "-e".into(), format!("trace={FS_SYSCALLS}"),
-    ];
+    // First run: hook events (the event log itself causes file-system
+    // calls, so syscalls are traced in a second run on a second copy).
     let mut child = Child::spawn(
         &root, &w.uri, w.crash.mc, w.crash.ml,
-        &[("VERIF_EVENT_LOG", events.display().to_string())], Some(strace),
+        &[("VERIF_EVENT_LOG", events.display().to_string())], None,
     );
     let (res, served, log) = child_update(&mut child, w.srv, 50, &step, t_now + 60);
     child.finish();
@@ -526,6 +528,17 @@ fn trace_run(w: &mut World, template: &Path, t_now: i64) -> Option<TraceInfo> {
     if outcome != Outcome::Updated {
         w.ctx.count("trace-run-not-updated");
         return None
+    }
+    {
+        let root2 = dir.path().join("c2");
+        copy_dir(template, &root2);
+        let strace = vec![
+            "-f".to_string(), "-y".into(), "-o".into(), strace_out.display().to_string(),
+            "-e".into(), format!("trace={FS_SYSCALLS}"),
+        ];
+        let mut child = Child::spawn(&root2, &w.uri, w.crash.mc, w.crash.ml, &[], Some(strace));
+        let _ = child_update(&mut child, w.srv, 50, &step, t_now + 60);
+        child.finish();
     }
     let done = observe(&config).ok()?;
     let hooks: Vec<String> = std::fs::read_to_string(&events).unwrap_or_default()
@@ -543,9 +556,11 @@ fn trace_run(w: &mut World, template: &Path, t_now: i64) -> Option<TraceInfo> {
     // File-system syscalls of the updating thread on the cache directory.
     let mut sys_points = Vec::new();
     let text = std::fs::read_to_string(&strace_out).unwrap_or_default();
-    let main_pid = text.lines().next().and_then(|l| l.split_whitespace().next()).map(String::from);
     let mut counts: BTreeMap<String, usize> = BTreeMap::new();
-    let cache = root.join("cache").display().to_string();
+    let cache = dir.path().join("c2").join("cache").display().to_string();
+    // All cache operations happen on the thread that runs the update.
+    let main_pid = text.lines().find(|l| l.contains(&cache))
+        .and_then(|l| l.split_whitespace().next()).map(String::from);
     if let Some(main_pid) = main_pid {
         for line in text.lines() {
             let mut parts = line.splitn(2, ' ');
@@ -611,7 +626,7 @@ pub fn run_c24(ctx: &mut Ctx) {
         }
         for c in fixed_crashes() { cases.push((c, None)); }
         let mut rng = ctx.rng.fork();
-        for _ in 0..ctx.budget(3, 40) { cases.push((random_crash(&mut rng), None)); }
+        for _ in 0..ctx.budget(1, 40) { cases.push((random_crash(&mut rng), None)); }
     }
     let mut total_points = 0usize;
     for (crash, only) in cases {
